@@ -51,6 +51,9 @@ pub enum NameSpec {
 
 #[derive(Clone, Debug, Serialize, Deserialize)]
 pub struct EntrySpec {
+    /// in the text form the Size line comes before the checksum lines
+    #[serde(default)]
+    pub size_first: bool,
     pub name: NameSpec,
     pub basis: Basis,
     /// (algorithm index, how the recorded hash relates to the true one); distinct algorithms
@@ -123,12 +126,12 @@ fn entry_spec() -> BoxedStrategy<EntrySpec> {
         1 => Just(SizeSpec::Minus1),
         1 => prop::sample::select(vec![0u64, u64::MAX, 1]).prop_map(SizeSpec::Literal),
     ];
-    (name, basis, prop::collection::vec((0u8..6, hash_spec()), 0..=4), size)
-        .prop_map(|(name, basis, mut checksums, size)| {
+    (name, basis, prop::collection::vec((0u8..6, hash_spec()), 0..=4), size, any::<bool>())
+        .prop_map(|(name, basis, mut checksums, size, size_first)| {
             // distinct algorithms per entry
             let mut seen = std::collections::BTreeSet::new();
             checksums.retain(|(a, _)| seen.insert(*a));
-            EntrySpec { name, basis, checksums, size }
+            EntrySpec { size_first, name, basis, checksums, size }
         })
         .boxed()
 }
@@ -148,7 +151,11 @@ fn case_strategy(tier: Tier) -> BoxedStrategy<Case> {
         })
         .boxed();
     // one case in four uses a generated file name (arbitrary non-white-space bytes, patch shapes)
-    let generated = crate::props::distgen::name().prop_filter("single component without NUL", |n| !n.contains(&b'/') && !n.contains(&0) && n.len() < 200);
+    let generated = crate::props::distgen::name().prop_map(|n| {
+        // the last component, without NUL (the file system cannot store it)
+        let b: Vec<u8> = n.rsplit(|c| *c == b'/').next().unwrap_or(&n).iter().map(|c| if *c == 0 { b'x' } else { *c }).take(120).collect();
+        b
+    });
     (base, prop::option::weighted(0.25, generated))
         .prop_map(|(mut c, g)| {
             if let Some(n) = g {
@@ -218,6 +225,7 @@ pub fn scratch(tag: &str) -> std::io::Result<PathBuf> {
 
 #[derive(Clone, Debug)]
 struct Rec {
+    size_first: bool,
     name: Vec<u8>,
     checksums: Vec<(Alg, String)>,
     size: Option<u64>,
@@ -276,7 +284,9 @@ pub fn check(c: &Case, obs: &mut Obs) -> Result<(), String> {
             .filter(|(_, h)| !h.is_empty())
             .collect();
         let size = match (&e.size, ekind) {
-            (_, Kind::Patchfile) | (SizeSpec::Absent, _) => None,
+            // patches carry a size only in hand-written text (as_bytes never writes one)
+            (_, Kind::Patchfile) if !c.via_text => None,
+            (SizeSpec::Absent, _) => None,
             (SizeSpec::Correct, _) => Some(basis.len() as u64),
             (SizeSpec::Plus1, _) => Some(basis.len() as u64 + 1),
             (SizeSpec::Minus1, _) => Some((basis.len() as u64).saturating_sub(1)),
@@ -285,21 +295,29 @@ pub fn check(c: &Case, obs: &mut Obs) -> Result<(), String> {
         if checksums.is_empty() && size.is_none() {
             continue;
         }
-        recs.push(Rec { name, checksums, size });
+        recs.push(Rec { size_first: e.size_first, name, checksums, size });
     }
     // ---- build the Distinfo
     let di = if c.via_text {
         let mut text = b"$NetBSD$\n\n".to_vec();
         for r in &recs {
+            let size_line = |text: &mut Vec<u8>| {
+                if let Some(s) = r.size {
+                    text.extend_from_slice(b"Size (");
+                    text.extend_from_slice(&r.name);
+                    text.extend_from_slice(format!(") = {} bytes\n", s).as_bytes());
+                }
+            };
+            if r.size_first {
+                size_line(&mut text);
+            }
             for (a, h) in &r.checksums {
                 text.extend_from_slice(format!("{} (", a.name()).as_bytes());
                 text.extend_from_slice(&r.name);
                 text.extend_from_slice(format!(") = {}\n", h).as_bytes());
             }
-            if let Some(s) = r.size {
-                text.extend_from_slice(b"Size (");
-                text.extend_from_slice(&r.name);
-                text.extend_from_slice(format!(") = {} bytes\n", s).as_bytes());
+            if !r.size_first {
+                size_line(&mut text);
             }
         }
         Distinfo::from_bytes(&text)
